@@ -18,23 +18,30 @@ import (
 func TestVerifC04(t *testing.T) {
 	gin.SetMode(gin.ReleaseMode)
 	mgr := vC04Manager()
-	var addr string
-	var pp *PPROF
-	var ierr error
-	for try := 0; try < 4; try++ { // the scratch port may be taken between probing and listening
-		addr = vC04FreeAddr()
-		pp = &PPROF{
-			Address: addr, TrustedProxies: vC04TrustedProxies(),
-			ReadTimeout: conf.Duration(20 * time.Second), WriteTimeout: conf.Duration(20 * time.Second),
-			AuthManager: mgr, Parent: test.NilLogger,
+	// two instances: [0] with the trusted proxy 127.0.0.1/32, [1] without trusted proxies (the default)
+	var bases [2]string
+	var pps [2]*PPROF
+	for inst := 0; inst < 2; inst++ {
+		var pp *PPROF
+		var ierr error
+		for try := 0; try < 4; try++ { // the scratch port may be taken between probing and listening
+			addr := vC04FreeAddr()
+			pp = &PPROF{
+				Address: addr, TrustedProxies: vC04TrustedProxies(inst),
+				ReadTimeout: conf.Duration(20 * time.Second), WriteTimeout: conf.Duration(20 * time.Second),
+				AuthManager: mgr, Parent: test.NilLogger,
+			}
+			if ierr = pp.Initialize(); ierr == nil {
+				bases[inst] = "http://" + addr
+				break
+			}
 		}
-		if ierr = pp.Initialize(); ierr == nil {
-			break
+		if ierr != nil {
+			t.Fatal(ierr)
 		}
+		defer pp.Close()
+		pps[inst] = pp
 	}
-	if ierr != nil {
-		t.Fatal(ierr)
-	}
-	defer pp.Close()
-	vC04Run(t, vC04Spec{Server: "pprof", Base: "http://" + addr, Routes: vC04Routes(pp.httpServer.Handler), Share: 15}, mgr)
+	vC04SameRoutes(t, pps[0].httpServer.Handler, pps[1].httpServer.Handler)
+	vC04Run(t, vC04Spec{Server: "pprof", Bases: bases, Routes: vC04Routes(pps[0].httpServer.Handler), Share: 15}, mgr)
 }
